@@ -56,8 +56,18 @@ pub fn gen_history(rng: &mut Rng, n: usize) -> Vec<Op> {
         let l = rng.range(0, 3);
         (0..l).map(|_| ALPHABET[2 + rng.below(2)]).collect()
     };
+    // one history in six is about the peer list: the first document starts with a full list, so that
+    // every further registration also evicts (added after seeded change agent-C17-7)
+    let peer_heavy = rng.chance(1, 6);
+    if peer_heavy {
+        ops.extend((0..5).map(|i| Op::Peer { doc: 0, peer: 20 + i }));
+    }
     for _ in 0..n {
         let doc = if rng.chance(1, 5) { 1 } else { 0 };
+        if peer_heavy && rng.chance(1, 3) {
+            ops.push(Op::Peer { doc: 0, peer: rng.below(12) as u8 });
+            continue;
+        }
         ops.push(match rng.below(20) {
             0..=7 => Op::Insert { doc, author: rng.below(2), key: key(rng), content: rng.below(4) },
             8..=10 => Op::Delete { doc, author: rng.below(2), key: key(rng) },
